@@ -88,6 +88,8 @@ def make_input(kind, data, sw, ch, files):
         return files["wav"], dict(large_file=True)
     if kind == "wav_eager":
         return files["wav"], {}
+    if kind in ("wavx", "wavx_eager"):
+        return files["wavx"], dict(large_file=(kind == "wavx"))
     if kind.startswith("stdin"):
         return "-", kw
     raise ValueError(kind)
@@ -104,7 +106,11 @@ def write_files(data, sw, ch, tag):
         fp.setsampwidth(sw)
         fp.setnchannels(ch)
         fp.writeframes(data)
-    return {"raw": raw, "wav": wav}
+    from .chk_sources import write_wav_chunky
+
+    wavx = os.path.join(d, "r_%s_x.wav" % tag)
+    write_wav_chunky(wavx, data, SR, sw, ch)
+    return {"raw": raw, "wav": wav, "wavx": wavx}
 
 
 def build_reader(kind, data, sw, ch, files, block_dur, hop_dur, max_read, record=False, cls=None):
@@ -124,7 +130,7 @@ def build_reader(kind, data, sw, ch, files, block_dur, hop_dur, max_read, record
         sys.stdin = old
 
 
-def c10_case(kind, n, sw, ch, files, B, block_dur, H, hop_dur, max_read, extra_reads=3, premature=False):
+def c10_case(kind, n, sw, ch, files, B, block_dur, H, hop_dur, max_read, extra_reads=3, premature=False, extra_open=False):
     """Returns complaint or None."""
     # R2: durations whose exact product with the rate is within 1e-9 of an integer without being one are ambiguous
     for dur in (block_dur, hop_dur):
@@ -155,7 +161,9 @@ def c10_case(kind, n, sw, ch, files, B, block_dur, H, hop_dur, max_read, extra_r
                 pass
         r.open()
         got = []
-        for _ in range(len(exp) + extra_reads):
+        for i_ in range(len(exp) + extra_reads):
+            if extra_open and i_ in (1, len(exp) + 1):
+                r.open()  # a redundant open() of a reader that is open (a helper that opens what it is handed) changes nothing
             try:
                 b = r.read()
             except Exception as exc:
@@ -205,7 +213,8 @@ def work_c10(task):
             for mr in max_reads(n):
                 for kind in kinds:
                     prem = (n + B + len(kind)) % 3 == 0
-                    msg = c10_case(kind, n, sw, ch, files, B, bd, HH, hop_dur, mr, premature=prem)
+                    xo = (n + B + len(kind)) % 3 == 1
+                    msg = c10_case(kind, n, sw, ch, files, B, bd, HH, hop_dur, mr, premature=prem, extra_open=xo)
                     cov["evaluations"] += 1
                     cov["traces_validated_against_impl"] += 1
                     nb = len(blocks_of([b"."] * visible_count(n, mr), B, HH))
@@ -217,7 +226,7 @@ def work_c10(task):
                             SR, kind, n, sw, ch, bd, hop_dur, mr)
                         if len(viol) < 20:
                             viol.append((key, msg, {"kind": "c10", "source": kind, "n": n, "sw": sw, "ch": ch, "B": B,
-                                                    "block_dur": bd, "H": HH, "hop_dur": hop_dur, "max_read": mr, "rate": SR, "premature": prem}))
+                                                    "block_dur": bd, "H": HH, "hop_dur": hop_dur, "max_read": mr, "rate": SR, "premature": prem, "extra_open": xo}))
         for f in files.values():
             os.unlink(f)
     cov["states"] = cov["evaluations"]
@@ -382,11 +391,21 @@ class RecSys:
         self.ended = False
         self.consumed = 0
         self.rec = None
+        self.closed = False
+        # one configuration in three also explores a redundant open() and close-before-rewind (what the command line does)
+        self.extra = (n + B + H) % 3 == 0
 
     def ops(self):
+        if self.closed:
+            return [("rewind",), ("data",)]
         if self.many:
             return [("read_many", self.many), ("read",), ("rewind",), ("data",)]
+        if self.extra:
+            return [("read",), ("rewind",), ("data",), ("open",)] + ([("close",)] if self.phase == "live" else [])
         return [("read",), ("rewind",), ("data",)]
+
+    def ops_small(self):
+        return [op for op in self.ops() if op[0] != "open"]
 
     def step(self, op):
         if op[0] == "read_many":
@@ -414,6 +433,12 @@ class RecSys:
                 return ("ok",)
             if op[0] == "data":
                 return ("data", bytes(self.real.data))
+            if op[0] == "open":
+                self.real.open()
+                return ("ok",)
+            if op[0] == "close":
+                self.real.close()
+                return ("ok",)
         except Exception as exc:
             if op[0] == "data":
                 return ("raise", "error")
@@ -435,11 +460,17 @@ class RecSys:
             if self.phase == "live":
                 self.consumed = consumed_after(self.k, len(src), self.B, self.H)
             return ("data", b)
+        if op[0] == "open":
+            return ("ok",)  # the reader is open already
+        if op[0] == "close":
+            self.closed = True
+            return ("ok",)
         if op[0] == "rewind":
             if self.phase == "live":
                 self.rec = self.vis[: self.consumed]
                 self.phase = "replay"
             self.k = 0
+            self.closed = False  # rewinding makes the recorded audio readable again
             return ("ok",)
         if op[0] == "data":
             if self.phase == "live":
@@ -447,13 +478,72 @@ class RecSys:
             return ("data", b"".join(self.rec))
 
     def key(self):
-        return (self.phase, self.k, self.consumed, self.ended if self.phase == "live" else None)
+        return (self.phase, self.k, self.consumed, self.ended if self.phase == "live" else None, self.closed)
 
     def close(self):
         try:
             self.real.close()
         except Exception:
             pass
+
+
+def fifo_recorders(rep):
+    """A recording reader with max_read over a lazily read named pipe whose data trickles in pieces that are not whole
+    samples: blocks, the visible prefix, data after rewind and the replay are what they are for a regular file."""
+    from .chk_sources import fifo_trickle
+
+    L = lib()
+    sw, ch = 2, 1
+    bps = sw * ch
+    for n in (5, 10):
+        data = content(n, sw, ch)
+        samples = [data[i : i + bps] for i in range(0, len(data), bps)]
+        for chunks in ((3,), (1,), (5, 2)):
+            for B, H in ((2, 2), (3, 2), (4, 4)):
+                for mr in (None, (n - 2) / SR, (n - 2.5) / SR, (n + 3) / SR):
+                    rep.add("evaluations")
+                    rep.add("distinct_nontrivial")
+                    vis = samples[: visible_count(n, mr)]
+                    want = blocks_of(vis, B, H)
+                    path = fifo_trickle(data, chunks)
+                    msg = None
+                    try:
+                        r = L["util"].AudioReader(path, block_dur=B / SR, hop_dur=None if H == B else H / SR, max_read=mr, record=True,
+                                                  large_file=True, audio_format="raw", sr=SR, sw=sw, ch=ch)
+                        r.open()
+                        got = []
+                        while len(got) < len(want) + 3:
+                            b = r.read()
+                            if b is None:
+                                break
+                            got.append(b)
+                        r.rewind()
+                        rec = bytes(r.data)
+                        replay = []
+                        while len(replay) < len(want) + 3:
+                            b = r.read()
+                            if b is None:
+                                break
+                            replay.append(b)
+                        r.close()
+                        if got != want:
+                            msg = "blocks %r, expected %r" % ([x.hex() for x in got], [x.hex() for x in want])
+                        elif rec != b"".join(vis):
+                            msg = "data after rewind holds %d bytes, %d were visible and read" % (len(rec), len(b"".join(vis)))
+                        elif replay != want:
+                            msg = "replay gives %d blocks, the first pass gave %d" % (len(replay), len(want))
+                    except Exception as exc:
+                        msg = "raised %r" % (exc,)
+                    finally:
+                        try:
+                            os.unlink(path)
+                        except OSError:
+                            pass
+                    if msg:
+                        rep.violation("fifo-recorder n=%d chunks=%r B=%d H=%d max_read=%r" % (n, chunks, B, H, mr),
+                                      "recording reader (block %d, hop %d, max_read %r) over a named pipe delivering %r-byte pieces: %s" % (B, H, mr, chunks, msg),
+                                      {"kind": "fiforec"})
+                        return
 
 
 def _c10_dispatch(t):
@@ -527,7 +617,7 @@ def run(prop, tier):
         rep = common.Report(prop, tier, "bounded-exhaustive enumeration of (source length x format x block x hop x max_read x "
                             "source kind) with reads past the end, against the by-definition block model")
         kinds = ["bytes", "buffer", "raw", "wav", "stdin", "wav_eager", "stdin:1", "stdin:3", "stdin:5,2", "buffer_pos2",
-                 "rec:bytes", "rec:wav"]
+                 "rec:bytes", "rec:wav", "wavx"]
         tasks = [(sw, ch, B, kinds, tier, 8) for (sw, ch) in FORMATS for B in (range(1, 6) if quick else range(1, 8))]
         # a high rate: max_read / block_dur / hop_dur are sub-millisecond values there
         tasks += [(sw, ch, B, ["bytes", "wav", "stdin", "stdin:3", "rec:bytes"], tier, 16000) for (sw, ch) in FORMATS[:2] for B in ((2, 3) if quick else (1, 2, 3, 5))]
@@ -539,6 +629,7 @@ def run(prop, tier):
         c10_rejections(rep)
         c10_near_integer(rep)
         c10_rewritten(rep)
+        fifo_recorders(rep)
         ltasks = [("L", (sw, ch, B, tier, 8192)) for (sw, ch) in ((2, 2), (1, 1)) for B in ((1024, 4096, 16385, 40000) if quick else (1024, 4096, 8192, 16385, 40000, 70001))]
         for part in common.pmap(_c10_dispatch, [("w", t) for t in tasks] + ltasks):
             rep.merge(part)
@@ -572,6 +663,7 @@ def run(prop, tier):
                        "all distinct; all but the root non-trivial")
     rep.cov["bounds"] = {"configs": len(tasks), "source_len": "0..5" if quick else "0..7", "block": "1..3", "hop": "1..block"}
     c19_nonrecording(rep)
+    fifo_recorders(rep)
     for part in common.pmap(work_c19, tasks, chunksize=4):
         rep.merge(part)
     rep.assumptions += ["rate 8 Hz (exact instants)"]
@@ -587,10 +679,11 @@ def replay(case):
         data = content(case["n"], case["sw"], case["ch"])
         files = write_files(data, case["sw"], case["ch"], "replay")
         return c10_case(case["source"], case["n"], case["sw"], case["ch"], files, case["B"], case["block_dur"],
-                        case["H"], case["hop_dur"], case["max_read"], premature=case.get("premature", False))
-    if k in ("c10near", "c10rewritten"):
+                        case["H"], case["hop_dur"], case["max_read"], premature=case.get("premature", False),
+                        extra_open=case.get("extra_open", False))
+    if k in ("c10near", "c10rewritten", "fiforec"):
         rep = common.Report("C10", "quick", "")
-        (c10_near_integer if k == "c10near" else c10_rewritten)(rep)
+        {"c10near": c10_near_integer, "c10rewritten": c10_rewritten, "fiforec": fifo_recorders}[k](rep)
         return rep.violations[0][1] if rep.violations else None
     if k == "c10rej":
         try:
